@@ -279,7 +279,7 @@ Print Assumptions C10_pinned_with_precision_refuted.
 
 (* ================================================================ round 3 *)
 From Coq Require Import QArith Reals Qreals.
-From Dashu Require Import Float.RoundOpsDeep Float.RoundOpsDeepProof Float.RoundPrimGenProof Float.RoundTwiceProof
+From Dashu Require Import Float.RoundOpsDeep Float.RoundOpsDeepProof Float.RoundOpsTinyProof Float.RoundPrimGenProof Float.RoundTwiceProof Float.RoundTwiceFloat
   Float.DivMulModel Float.FilterProof Float.F32Flocq Ratio.RatRoundGenProof.
 From DashuGen Require Import RatioSmall RoundPrimGen.
 Open Scope Z_scope.
@@ -382,6 +382,18 @@ Theorem C10_with_precision_full : forall B, 2 <= B ->
   with_precision_full B rf m p s e np = Ok (norm_approx B (with_precision_spec B m s e np)).
 Proof. exact with_precision_full_spec. Qed.
 Print Assumptions C10_with_precision_full.
+
+(** the instance the code runs: Context::repr_round with the f32-filtered primitive, fewer than 2^24 digits cut off *)
+Theorem C10_with_precision_f32 : forall B, 2 <= B -> forall (lb ub : Z -> Q) (b_lb b_ub : Q),
+  (forall f, 0 < f -> (Q2R (lb f) <= log2R (IZR f) <= Q2R (ub f))%R) ->
+  (Q2R b_lb <= log2R (IZR B) <= Q2R b_ub)%R ->
+  forall m p s e np, is_inf s e = false -> 0 <= p -> 0 <= np -> (p = 0 \/ dlen B s <= p) -> dlen B s - np < 2 ^ 24 ->
+  with_precision_full B (round_fract_f32 fl32 cvt32 lb ub b_lb b_ub c999_32 c1001_32 B) m p s e np =
+    Ok (norm_approx B (with_precision_spec B m s e np)).
+Proof.
+  exact (fun B HB lb ub bl bu Hl Hb => with_precision_full_spec B HB _ (2 ^ 24) (rf_flocq32_ok B HB lb ub bl bu Hl Hb)).
+Qed.
+Print Assumptions C10_with_precision_f32.
 
 (** with_rounding::<NewR>() then with_precision: ONE rounding under the new mode, the old mode plays no part *)
 Theorem C10_with_rounding_then_precision : forall B, 2 <= B ->
@@ -516,3 +528,43 @@ Theorem C10_round_ratio_boundary_directed_refuted :
   spec_round MZero (Z.sgn 2 * (3 * 2 + 2)) (Z.abs 2) = 4.
 Proof. exact round_ratio_boundary_directed_refuted. Qed.
 Print Assumptions C10_round_ratio_boundary_directed_refuted.
+
+(* ---------------------------------------------------------------- values far below one: the specification without a power *)
+
+(** with at least one zero digit after the radix point the six roundings depend on the sign only; the oracle decides
+    with these forms where B^(-e) cannot be formed (exponents down to isize::MIN, finding F03) *)
+Theorem C10_int_spec_tiny : forall B, 2 <= B -> forall m s e, dlen B s + 1 <= - e -> int_spec B m s e = int_tiny m s.
+Proof. exact int_spec_tiny. Qed.
+Print Assumptions C10_int_spec_tiny.
+
+Theorem C10_fract_tiny : forall B, 2 <= B -> forall s e, dlen B s + 1 <= - e -> fract_sig_spec B s e = s.
+Proof. exact fract_sig_tiny. Qed.
+Print Assumptions C10_fract_tiny.
+
+Theorem C10_to_int_tiny : forall B, 2 <= B -> forall m s e, dlen B s + 1 <= - e -> to_int_spec B m s e = to_int_tiny m s.
+Proof. exact to_int_spec_tiny. Qed.
+Print Assumptions C10_to_int_tiny.
+
+(* ---------------------------------------------------------------- with_precision twice at float level, directed modes *)
+
+(** x.with_precision(np1).value().with_precision(np2), np2 <= np1, under Zero/Away/Up/Down: the same VALUE as
+    x.with_precision(np2) - through the carry of the first rounding and the normalisation in between ... *)
+Theorem C10_with_precision_twice_directed : forall B, 2 <= B -> forall m s e np1 np2,
+  is_directed m = true -> 1 <= np2 -> np2 <= np1 ->
+  let a1 := norm_approx B (with_precision_spec B m s e np1) in
+  let a2 := norm_approx B (with_precision_spec B m (approx_sig a1) (approx_exp a1) np2) in
+  let a := norm_approx B (with_precision_spec B m s e np2) in
+  same_value B (approx_sig a2) (approx_exp a2) (approx_sig a) (approx_exp a).
+Proof. exact with_precision_twice_directed. Qed.
+Print Assumptions C10_with_precision_twice_directed.
+
+(** ... and for a float as Repr::new leaves it, literally the same significand and exponent (the flags differ: each is
+    relative to its own input) *)
+Theorem C10_with_precision_twice_directed_eq : forall B, 2 <= B -> forall m s e np1 np2,
+  is_directed m = true -> 1 <= np2 -> np2 <= np1 -> s mod B <> 0 ->
+  let a1 := norm_approx B (with_precision_spec B m s e np1) in
+  let a2 := norm_approx B (with_precision_spec B m (approx_sig a1) (approx_exp a1) np2) in
+  let a := norm_approx B (with_precision_spec B m s e np2) in
+  approx_sig a2 = approx_sig a /\ approx_exp a2 = approx_exp a.
+Proof. exact with_precision_twice_directed_eq. Qed.
+Print Assumptions C10_with_precision_twice_directed_eq.
